@@ -9,9 +9,9 @@ cd $WT || exit 2
 echo "== confirm in $WT"
 git diff --stat -- src | tail -1
 T1=$(cargo test --offline --lib 2>&1 | grep -E "^test result" | head -1); echo "lib tests with change: $T1"
-D1=$(cargo test --offline --features cli --test seeded_demo 2>&1 | grep -E "^test result" | head -1); echo "demo with change: $D1"
+D1=$(cargo test --offline --test seeded_demo 2>&1 | grep -E "^test result" | head -1); echo "demo with change: $D1"
 git stash push -q -- src
-D2=$(cargo test --offline --features cli --test seeded_demo 2>&1 | grep -E "^test result" | head -1); echo "demo without change: $D2"
+D2=$(cargo test --offline --test seeded_demo 2>&1 | grep -E "^test result" | head -1); echo "demo without change: $D2"
 git stash pop -q
 echo "== apply to /repo and run checks"
 cd /repo && git apply $WT/SEEDED/patch.diff || { echo "patch does not apply"; exit 3; }
